@@ -1,5 +1,5 @@
-(* C20 - lemmas: UniqueSet (Add/Remove/Each over the shared backing array), the knock
-   detector's grouping invariant, the tick, and the TCP path. *)
+(* C20 - lemmas: UniqueSet (Add / Remove / Each over a copy), the knock detector's grouping
+   invariant, the tick, and the TCP path. *)
 From HT Require Import Common.Bytes C20.Model.
 From Coq Require Import ZifyBool ZifyN ZifyNat.
 Open Scope Z_scope.
@@ -76,9 +76,6 @@ Section USetEach.
   Notation uremove := (uremove idf).
   Notation each_rm := (each_rm idf).
   Notation each_loop := (each_loop idf).
-  Notation w_remove := (w_remove idf).
-  Notation index_of := (index_of idf).
-  Notation slot_is := (slot_is idf).
 
   Lemma uremove_incl x s z : In z (uremove x s) -> In z s.
   Proof.
@@ -86,178 +83,65 @@ Section USetEach.
     destruct (same x y); cbn [In]; intros H; auto. destruct H; auto.
   Qed.
 
-  (* ---- the array during Each ---- *)
-  Fixpoint oremove (x : A) (l : list (option A)) : list (option A) :=
-    match l with
-    | [] => []
-    | o :: r => if slot_is x o then r else o :: oremove x r
-    end.
-
-  Lemma index_of_lt x l j : index_of x l = Some j -> (j < length l)%nat.
+  (* Each visits exactly the members it found when it started, once each, in order *)
+  Lemma each_loop_visits rm copy : forall l, fst (each_loop rm copy l) = copy.
   Proof.
-    revert j; induction l as [|o r IH]; cbn [Model.index_of length]; intros j; [discriminate|].
-    destruct (slot_is x o).
-    - intros H; injection H as <-; lia.
-    - destruct (index_of x r) as [j'|]; [|discriminate]. intros H; injection H as <-.
-      specialize (IH j' eq_refl); lia.
+    induction copy as [|x r IH]; intros l; cbn [Model.each_loop]; auto.
+    specialize (IH (if rm x then uremove x l else l)).
+    destruct (each_loop rm r (if rm x then uremove x l else l)). cbn [fst] in *. congruence.
   Qed.
 
-  Lemma oremove_index x l :
-    oremove x l = match index_of x l with
-                  | None => l
-                  | Some j => firstn j l ++ skipn (S j) l
-                  end.
+  Lemma each_loop_left rm copy : forall l,
+    snd (each_loop rm copy l) = fold_left (fun l x => uremove x l) (filter rm copy) l.
   Proof.
-    induction l as [|o r IH]; cbn [oremove Model.index_of]; auto.
-    destruct (slot_is x o); auto.
-    rewrite IH. destruct (index_of x r) as [j|]; auto.
+    induction copy as [|x r IH]; intros l; cbn [Model.each_loop filter]; auto.
+    specialize (IH (if rm x then uremove x l else l)).
+    destruct (each_loop rm r (if rm x then uremove x l else l)). cbn [snd] in *.
+    destruct (rm x); cbn [fold_left]; auto.
   Qed.
 
-  Lemma somes_oremove x l : somes (oremove x l) = uremove x (somes l).
-  Proof.
-    induction l as [|o r IH]; cbn [oremove somes Model.uremove]; auto.
-    destruct o as [y|]; cbn [Model.slot_is somes Model.uremove].
-    - destruct (same x y); cbn [somes]; auto. rewrite IH; auto.
-    - auto.
-  Qed.
-
-  Definition w_ok (w : warr A) : Prop := (w_len w <= length (w_arr w))%nat.
-
-  Lemma live_length w : w_ok w -> length (live w) = w_len w.
-  Proof. unfold w_ok, live; intros H; rewrite firstn_length; lia. Qed.
-
-  Lemma w_remove_live x w :
-    w_ok w -> live (w_remove x w) = oremove x (live w) /\ w_ok (w_remove x w) /\
-              length (w_arr (w_remove x w)) = length (w_arr w).
-  Proof.
-    intros Hok. pose proof (live_length w Hok) as HL.
-    unfold Model.w_remove. rewrite oremove_index.
-    destruct (index_of x (live w)) as [j|] eqn:Ej; [|auto].
-    pose proof (index_of_lt _ _ _ Ej) as Hj. rewrite HL in Hj.
-    unfold w_ok in Hok. set (L := w_len w) in *. set (a := w_arr w) in *.
-    assert (Hlen1 : length (firstn j a) = j) by (rewrite firstn_length; lia).
-    assert (Hlen2 : length (firstn (L - 1 - j) (skipn (S j) a)) = (L - 1 - j)%nat)
-      by (rewrite firstn_length, skipn_length; lia).
-    split; [|split].
-    - unfold live; cbn [w_len w_arr]. fold a. fold L.
-      rewrite app_assoc. rewrite firstn_app.
-      rewrite app_length, Hlen1, Hlen2.
-      replace (L - 1 - (j + (L - 1 - j)))%nat with O by lia.
-      cbn [firstn]. rewrite app_nil_r.
-      rewrite firstn_all2 by (rewrite app_length, Hlen1, Hlen2; lia).
-      rewrite firstn_firstn. replace (Nat.min j L) with j by lia.
-      f_equal.
-      replace (L - 1 - j)%nat with (L - S j)%nat by lia.
-      rewrite firstn_skipn_comm. f_equal. f_equal. lia.
-    - unfold w_ok; cbn [w_len w_arr]. rewrite !app_length, Hlen1, Hlen2, skipn_length.
-      cbn [length]. lia.
-    - cbn [w_arr]. rewrite !app_length, Hlen1, Hlen2, skipn_length. cbn [length]. lia.
-  Qed.
-
-  (* the set after Each is the set before minus a list of removals *)
-  Lemma each_loop_removes rm idx : forall w vis w',
-    w_ok w -> each_loop rm idx w = (vis, w') ->
-    w_ok w' /\ exists xs, somes (live w') = fold_left (fun l x => uremove x l) xs (somes (live w)).
-  Proof.
-    induction idx as [|i r IH]; cbn [Model.each_loop]; intros w vis w' Hok H.
-    - injection H as <- <-. split; auto. exists []; reflexivity.
-    - set (o := nth i (w_arr w) None) in *.
-      set (w1 := match o with Some x => if rm x then w_remove x w else w | None => w end) in *.
-      destruct (each_loop rm r w1) as [vis1 w2] eqn:E. injection H as <- <-.
-      assert (Hw1 : w_ok w1 /\ exists xs, somes (live w1) = fold_left (fun l x => uremove x l) xs (somes (live w))).
-      { subst w1. destruct o as [x|]; [destruct (rm x)|].
-        - destruct (w_remove_live x w Hok) as (Hl & Hok' & _). split; auto.
-          exists [x]. cbn [fold_left]. rewrite Hl. apply somes_oremove.
-        - split; auto. exists []; reflexivity.
-        - split; auto. exists []; reflexivity. }
-      destruct Hw1 as (Hok1 & xs1 & Hx1).
-      destruct (IH w1 vis1 w2 Hok1 E) as (Hok2 & xs2 & Hx2). split; auto.
-      exists (xs1 ++ xs2). rewrite fold_left_app, <- Hx1. exact Hx2.
-  Qed.
-
-  Lemma somes_map_Some (s : list A) : somes (map Some s) = s.
-  Proof. induction s; cbn [map somes]; congruence. Qed.
+  Lemma each_rm_visits rm s : fst (each_rm rm s) = s.
+  Proof. apply each_loop_visits. Qed.
 
   Lemma each_rm_removes rm s :
-    exists xs, snd (each_rm rm s) = fold_left (fun l x => uremove x l) xs s.
+    snd (each_rm rm s) = fold_left (fun l x => uremove x l) (filter rm s) s.
+  Proof. apply each_loop_left. Qed.
+
+  Lemma fold_uremove_cons_other a xs : forall l,
+    (forall x, In x xs -> idf x <> idf a) ->
+    fold_left (fun l x => uremove x l) xs (a :: l) = a :: fold_left (fun l x => uremove x l) xs l.
   Proof.
-    unfold Model.each_rm.
-    destruct (each_loop rm (seq 0 (length s)) (mkW (map Some s) (length s))) as [vis w] eqn:E.
-    apply each_loop_removes in E.
-    - destruct E as (_ & xs & Hx). exists xs. cbn [snd]. rewrite Hx.
-      unfold live; cbn [w_len w_arr]. rewrite firstn_all2 by (rewrite map_length; lia).
-      rewrite somes_map_Some; auto.
-    - unfold w_ok; cbn [w_len w_arr]. rewrite map_length; lia.
+    induction xs as [|x r IH]; intros l H; cbn [fold_left]; auto.
+    cbn [Model.uremove]. unfold Model.same at 1.
+    assert ((idf x =? idf a)%N = false) as -> by (apply N.eqb_neq, H; left; auto).
+    apply IH. intros y Hy; apply H; right; auto.
+  Qed.
+
+  Lemma fold_uremove_filter rm s :
+    NoDup (map idf s) ->
+    fold_left (fun l x => uremove x l) (filter rm s) s = filter (fun x => negb (rm x)) s.
+  Proof.
+    induction s as [|a r IH]; cbn [map filter fold_left]; auto.
+    intros Hn. inversion Hn as [|? ? Ha Hr]; subst.
+    destruct (rm a) eqn:Ra; cbn [negb fold_left].
+    - cbn [Model.uremove]. unfold Model.same. rewrite N.eqb_refl. apply IH; auto.
+    - rewrite fold_uremove_cons_other.
+      + rewrite IH; auto.
+      + intros x Hx E. apply filter_In in Hx as (Hx & _). apply Ha. rewrite <- E. apply in_map; auto.
+  Qed.
+
+  (* with distinct identities: exactly the members to be removed are removed *)
+  Lemma each_rm_exact rm s :
+    NoDup (map idf s) -> each_rm rm s = (s, filter (fun x => negb (rm x)) s).
+  Proof.
+    intros H. rewrite (surjective_pairing (each_rm rm s)), each_rm_visits, each_rm_removes.
+    rewrite fold_uremove_filter; auto.
   Qed.
 
   Lemma fold_uremove_incl xs : forall s z, In z (fold_left (fun l x => uremove x l) xs s) -> In z s.
   Proof.
     induction xs as [|x r IH]; cbn [fold_left]; auto. intros s z H.
     apply IH in H. eapply uremove_incl; eauto.
-  Qed.
-
-  Lemma each_rm_incl rm s z : In z (snd (each_rm rm s)) -> In z s.
-  Proof. destruct (each_rm_removes rm s) as (xs & ->). apply fold_uremove_incl. Qed.
-
-  (* ---- Each without removal: every member once, in order ---- *)
-  Lemma each_loop_norm idx : forall w,
-    each_loop (fun _ => false) idx w = (map (fun i => nth i (w_arr w) None) idx, w).
-  Proof.
-    induction idx as [|i r IH]; intros w; cbn [Model.each_loop map]; auto.
-    destruct (nth i (w_arr w) None); rewrite IH; auto.
-  Qed.
-
-  Lemma map_nth_seq {B} (l : list B) d : map (fun i => nth i l d) (seq 0 (length l)) = l.
-  Proof.
-    induction l as [|b r IH]; cbn [length seq map nth]; auto.
-    f_equal. rewrite <- seq_shift, map_map. cbn [nth]. exact IH.
-  Qed.
-
-  Lemma each_norm s : each_rm (fun _ => false) s = (map Some s, s).
-  Proof.
-    unfold Model.each_rm. rewrite each_loop_norm. cbn [w_arr].
-    rewrite <- (map_length Some s) at 1. rewrite map_nth_seq.
-    unfold live; cbn [w_len w_arr]. rewrite firstn_all2 by (rewrite map_length; lia).
-    rewrite somes_map_Some; auto.
-  Qed.
-
-  (* ---- Each with removal is exact for at most two members with different identities ---- *)
-  Lemma each_rm_le2 rm s :
-    (length s <= 2)%nat -> NoDup (map idf s) ->
-    each_rm rm s = (map Some s, filter (fun x => negb (rm x)) s).
-  Proof.
-    intros Hl Hnd.
-    destruct s as [|a [|b [|c r]]]; [| | |cbn [length] in Hl; lia].
-    - reflexivity.
-    - unfold Model.each_rm. cbn.
-      destruct (rm a); cbn; [|reflexivity].
-      unfold Model.w_remove, live; cbn. unfold Model.same. rewrite N.eqb_refl. reflexivity.
-    - assert (Hab : (idf a =? idf b)%N = false).
-      { cbn [map] in Hnd. inversion Hnd as [|? ? Hn _]. apply N.eqb_neq. intros E. apply Hn. left; auto. }
-      assert (Hba : (idf b =? idf a)%N = false) by (rewrite N.eqb_sym; exact Hab).
-      unfold Model.each_rm. cbn.
-      destruct (rm a) eqn:Ra; cbn;
-        repeat (unfold Model.w_remove, live; cbn; unfold Model.same; rewrite ?N.eqb_refl, ?Hba; cbn);
-        destruct (rm b) eqn:Rb; cbn;
-        repeat (unfold Model.w_remove, live; cbn; unfold Model.same; rewrite ?N.eqb_refl, ?Hba; cbn);
-        reflexivity.
-  Qed.
-
-  (* ---- and wrong for every set of three or more members when everything visited is removed:
-          the second member is skipped ---- *)
-  Lemma each_rm_ge3_skips a b c r :
-    exists vis, fst (each_rm (fun _ => true) (a :: b :: c :: r)) = Some a :: Some c :: vis.
-  Proof.
-    unfold Model.each_rm. cbn [length map seq].
-    set (rest := map Some r). set (n := length r).
-    assert (Hw : exists tl, w_arr (w_remove a (mkW (Some a :: Some b :: Some c :: rest) (S (S (S n)))))
-                            = Some b :: Some c :: tl).
-    { unfold Model.w_remove, live. cbn [w_len w_arr firstn Model.index_of Model.slot_is].
-      unfold Model.same. rewrite N.eqb_refl. cbn [w_arr Nat.sub firstn skipn app]. eexists; reflexivity. }
-    destruct Hw as (tl & Hw).
-    cbn [Model.each_loop nth w_arr]. rewrite Hw. cbn [nth].
-    match goal with |- context [Model.each_loop idf ?f ?i ?w] => destruct (Model.each_loop idf f i w) as [v w'] end.
-    cbn [fst]. eexists; reflexivity.
   Qed.
 End USetEach.
 
@@ -268,11 +152,6 @@ Section USetOps.
   Notation same := (same idf).
   Notation uremove := (uremove idf).
   Notation each_rm := (each_rm idf).
-  Notation each_loop := (each_loop idf).
-  Notation w_remove := (w_remove idf).
-  Notation index_of := (index_of idf).
-  Notation slot_is := (slot_is idf).
-
   Notation distinct := (distinct eqf).
 
   Lemma distinct_uremove x s : distinct s -> distinct (uremove x s).
@@ -287,7 +166,7 @@ Section USetOps.
   Proof. induction xs as [|x r IH]; cbn [fold_left]; auto. intros s H. apply IH, distinct_uremove, H. Qed.
 
   Lemma each_rm_distinct rm s : distinct s -> distinct (snd (each_rm rm s)).
-  Proof. intros H. destruct (each_rm_removes A idf rm s) as (xs & ->). apply distinct_fold_uremove, H. Qed.
+  Proof. intros H. rewrite each_rm_removes. apply distinct_fold_uremove, H. Qed.
 
   (* ---- all operation sequences ---- *)
   Inductive uop := OAdd (x : A) | ORemove (x : A) | OEach (rm : A -> bool).
@@ -342,24 +221,24 @@ Proof. reflexivity. Qed.
 Lemma gkey_touch k t g : gkey (touch k t g) = gkey g.
 Proof. reflexivity. Qed.
 
-Lemma kind_of_proto a b : a <> KTcp -> b <> KTcp -> proto_of a = proto_of b -> a = b.
+Lemma kind_of_proto a b : proto_of a = proto_of b -> a = b.
 Proof. destruct a, b; cbn; intros; congruence. Qed.
 
 Lemma kind_eqb_refl c : kind_eqb c c = true.
 Proof. destruct c; reflexivity. Qed.
 
 Lemma knock_eq_port c k z :
-  c <> KTcp -> k_kind k = c -> k_kind z = c -> (knock_eq c k z = true <-> port_of k = port_of z).
+  k_kind k = c -> k_kind z = c -> (knock_eq c k z = true <-> port_of k = port_of z).
 Proof.
-  intros Hc Hk Hz. unfold knock_eq, port_of. rewrite Hk, Hz, kind_eqb_refl. cbn [andb].
-  destruct c; [congruence| |].
+  intros Hk Hz. unfold knock_eq, port_of. rewrite Hk, Hz, kind_eqb_refl. cbn [andb].
+  destruct c.
+  - rewrite N.eqb_eq. split; [congruence|]. intros H; injection H; auto.
   - rewrite N.eqb_eq. split; [congruence|]. intros H; injection H; auto.
   - split; auto.
 Qed.
 
 (* what holds of a group once its knocks so far are ks *)
 Definition gcore (ks : list knock) (next : N) (g : group) : Prop :=
-  g_kind g <> KTcp /\
   Forall (fun k' => k_kind k' = g_kind g) (g_knocks g) /\
   NoDup (map port_of (g_knocks g)) /\
   (forall pr, In pr (map port_of (g_knocks g)) <->
@@ -397,13 +276,12 @@ Proof.
 Qed.
 
 Lemma gcore_touch ks next k t y :
-  gcore ks next y -> k_kind k <> KTcp -> gkey y = kkey k -> gcore (ks ++ [k]) next (touch k t y).
+  gcore ks next y -> gkey y = kkey k -> gcore (ks ++ [k]) next (touch k t y).
 Proof.
-  intros (Hk & Hf & Hn & Hp & Hid) Hkk Hkey.
+  intros (Hf & Hn & Hp & Hid) Hkey.
   assert (Hkind : k_kind k = g_kind y).
-  { apply kind_of_proto; auto. unfold gkey, kkey in Hkey. congruence. }
+  { apply kind_of_proto. unfold gkey, kkey in Hkey. congruence. }
   unfold gcore. cbn [touch g_kind g_knocks g_id]. rewrite gkey_touch.
-  split; [auto|].
   destruct (uadd (knock_eq (g_kind y)) k (g_knocks y)) as [z s'] eqn:E. cbn [snd].
   apply uadd_spec in E. destruct E as [(Hz & Hq & ->)|(-> & -> & Hnone)].
   - (* an equal knock is already there *)
@@ -436,7 +314,7 @@ Qed.
 Lemma gcore_other ks next k g :
   gcore ks next g -> kkey k <> gkey g -> gcore (ks ++ [k]) next g.
 Proof.
-  intros (Hk & Hf & Hn & Hp & Hid) Hne. unfold gcore. repeat split; auto.
+  intros (Hf & Hn & Hp & Hid) Hne. unfold gcore. repeat split; auto.
   - intros H. apply Hp in H as (k' & Hk' & H1 & H2). exists k'. rewrite in_app_iff; auto.
   - intros (k' & Hk' & H1 & H2). apply in_app_iff in Hk' as [Hk'|[<-|[]]].
     + apply Hp. exists k'; auto.
@@ -444,7 +322,7 @@ Proof.
 Qed.
 
 Lemma gcore_next ks n m g : gcore ks n g -> (n <= m)%N -> gcore ks m g.
-Proof. intros (Hk & Hf & Hn & Hp & Hid) H. unfold gcore. repeat split; auto; try apply Hp; lia. Qed.
+Proof. intros (Hf & Hn & Hp & Hid) H. unfold gcore. repeat split; auto; try apply Hp; lia. Qed.
 
 Lemma gseen_mono ks ts k t g : gseen ks ts g -> gseen (ks ++ [k]) (ts ++ [t]) g.
 Proof.
@@ -454,9 +332,9 @@ Qed.
 
 (* one knock: the group with the knock's key is touched, every other group is unchanged *)
 Lemma step_knock_inv kts d k t :
-  dinv kts d -> k_kind k <> KTcp -> dinv (kts ++ [(k, t)]) (step_knock k t d).
+  dinv kts d -> dinv (kts ++ [(k, t)]) (step_knock k t d).
 Proof.
-  intros (Hid & Hkey & Hcore & Hseen & Hcov) Hk.
+  intros (Hid & Hkey & Hcore & Hseen & Hcov).
   unfold step_knock.
   set (g0 := new_group k t (d_next d)).
   destruct (uadd group_eq g0 (d_groups d)) as [y gs1] eqn:E.
@@ -477,7 +355,7 @@ Proof.
     - exists (d_groups d), []. split; [reflexivity|]. split; [reflexivity|].
       assert (Hfresh : ~ In (g_id g0) (map g_id (d_groups d))).
       { intros H. apply in_map_iff in H as (g & Hg1 & Hg2).
-        rewrite Forall_forall in Hcore. destruct (Hcore g Hg2) as (_ & _ & _ & _ & Hlt).
+        rewrite Forall_forall in Hcore. destruct (Hcore g Hg2) as (_ & _ & _ & Hlt).
         cbn [g0 new_group g_id] in Hg1. lia. }
       assert (Hnk : ~ In (kkey k) (map gkey (d_groups d))).
       { intros H. apply in_map_iff in H as (g & Hg1 & Hg2).
@@ -488,7 +366,7 @@ Proof.
       + apply Forall_app; split.
         * eapply Forall_impl; [|exact Hcore]. intros g Hg. eapply gcore_next; eauto. lia.
         * constructor; [|constructor]. unfold gcore. cbn [g0 new_group g_kind g_knocks g_id map].
-          split; [auto|]. split; [constructor|]. split; [constructor|]. split; [|lia].
+          split; [constructor|]. split; [constructor|]. split; [|lia].
           intros pr. split; [intros []|]. intros (k' & Hk' & H1 & _). exfalso. apply Hnk.
           rewrite <- (gkey_new k t (d_next d)). fold g0. rewrite <- H1. apply Hcov; auto.
       + split.
@@ -543,26 +421,19 @@ Proof.
   unfold dinv, det0. cbn. repeat split; try constructor. intros k [].
 Qed.
 
-Lemma run_knocks_inv kts :
-  Forall (fun kt => k_kind (fst kt) <> KTcp) kts -> dinv kts (run_knocks kts det0).
+Lemma run_knocks_inv kts : dinv kts (run_knocks kts det0).
 Proof.
-  induction kts as [|[k t] kts IH] using rev_ind; intros H.
+  induction kts as [|[k t] kts IH] using rev_ind.
   - exact dinv0.
-  - apply Forall_app in H as (H1 & H2). inversion H2; subst.
-    rewrite run_knocks_snoc. apply step_knock_inv; auto.
-Qed.
-
-Lemma run_with_knocks_events tk kts rest : forall d,
-  run_with tk (map (fun kt => DKnock (fst kt) (snd kt)) kts ++ rest) d
-  = run_with tk rest (run_knocks kts d).
-Proof.
-  induction kts as [|[k t] kts IH]; intros d; cbn [map app run_with fst snd]; auto.
-  rewrite IH. reflexivity.
+  - rewrite run_knocks_snoc. apply step_knock_inv; auto.
 Qed.
 
 Lemma run_knocks_events kts rest : forall d,
   run (map (fun kt => DKnock (fst kt) (snd kt)) kts ++ rest) d = run rest (run_knocks kts d).
-Proof. apply run_with_knocks_events. Qed.
+Proof.
+  induction kts as [|[k t] kts IH]; intros d; cbn [map app run fst snd]; auto.
+  rewrite IH. reflexivity.
+Qed.
 
 (* ---- the statement about the groups: one per (protocol group, source, destination) knocked,
         holding exactly the distinct protocol/port pairs knocked, each once ---- *)
@@ -579,9 +450,9 @@ Lemma dinv_exact kts d : dinv kts d -> groups_exact (map fst kts) (d_groups d).
 Proof.
   intros (Hid & Hkey & Hcore & Hseen & Hcov). unfold groups_exact. repeat split; auto.
   - rewrite Forall_forall in Hseen. destruct (Hseen g H) as (_ & Hx). exact Hx.
-  - rewrite Forall_forall in Hcore. destruct (Hcore g H) as (_ & _ & Hn & _). exact Hn.
-  - rewrite Forall_forall in Hcore. destruct (Hcore g H) as (_ & _ & _ & Hp & _). apply Hp.
-  - rewrite Forall_forall in Hcore. destruct (Hcore g H) as (_ & _ & _ & Hp & _). apply Hp.
+  - rewrite Forall_forall in Hcore. destruct (Hcore g H) as (_ & Hn & _). exact Hn.
+  - rewrite Forall_forall in Hcore. destruct (Hcore g H) as (_ & _ & Hp & _). apply Hp.
+  - rewrite Forall_forall in Hcore. destruct (Hcore g H) as (_ & _ & Hp & _). apply Hp.
 Qed.
 
 (* ---- the tick ---- *)
@@ -597,214 +468,48 @@ Proof.
   rewrite (H b (or_introl eq_refl)), IH; auto. intros x Hx; apply H; right; auto.
 Qed.
 
-Lemma existsb_none_map_Some {B} (l : list B) : existsb is_none (map Some l) = false.
-Proof. induction l; cbn [map existsb is_none orb]; auto. Qed.
 
-Lemma tick_le2 now d :
-  (length (d_groups d) <= 2)%nat -> NoDup (map g_id (d_groups d)) ->
+(* every group that is due and younger than 60 s is reported once and removed; here: all *)
+Lemma tick_all now d :
+  NoDup (map g_id (d_groups d)) ->
   (forall g, In g (d_groups d) -> due now g = true /\ removable now g = true) ->
-  tick now d = TickOk (map report_of (d_groups d)) (mkDet [] (d_next d)).
+  tick now d = (map report_of (d_groups d), mkDet [] (d_next d)).
 Proof.
-  intros Hl Hn Hd. unfold tick. rewrite (each_rm_le2 _ g_id) by auto.
-  rewrite existsb_none_map_Some, somes_map_Some.
+  intros Hn Hd. unfold tick. rewrite each_rm_exact by auto.
   rewrite filter_all by (intros g Hg; apply Hd; auto).
   rewrite filter_none; auto.
   intros g Hg. destruct (Hd g Hg) as (H1 & H2). unfold tick_rm. rewrite H1, H2. reflexivity.
 Qed.
 
-Lemma tick_empty now n : tick now (mkDet [] n) = TickOk [] (mkDet [] n).
+(* in general: exactly the due groups are reported, each once, in order; exactly those of
+   them younger than 60 s are removed *)
+Lemma tick_general now d :
+  NoDup (map g_id (d_groups d)) ->
+  tick now d = (map report_of (filter (due now) (d_groups d)),
+                mkDet (filter (fun g => negb (tick_rm now g)) (d_groups d)) (d_next d)).
+Proof. intros Hn. unfold tick. rewrite each_rm_exact by auto. reflexivity. Qed.
+
+Lemma tick_empty now n : tick now (mkDet [] n) = ([], mkDet [] n).
 Proof. reflexivity. Qed.
 
-Definition at_most_two_keys (ks : list knock) : Prop :=
-  forall a b c, In a ks -> In b ks -> In c ks -> kkey a = kkey b \/ kkey a = kkey c \/ kkey b = kkey c.
-
-Lemma exact_le2 ks gs : groups_exact ks gs -> at_most_two_keys ks -> (length gs <= 2)%nat.
-Proof.
-  intros (Hn & _ & Hg) H2.
-  destruct gs as [|g1 [|g2 [|g3 r]]]; cbn [length]; try lia. exfalso.
-  destruct (Hg g1) as ((k1 & Hk1 & E1) & _); [cbn; auto|].
-  destruct (Hg g2) as ((k2 & Hk2 & E2) & _); [cbn; auto|].
-  destruct (Hg g3) as ((k3 & Hk3 & E3) & _); [cbn; auto|].
-  cbn [map] in Hn. inversion Hn as [|? ? Hn1 Hn']; subst. inversion Hn' as [|? ? Hn2 _]; subst.
-  destruct (H2 k1 k2 k3 Hk1 Hk2 Hk3) as [E|[E|E]].
-  - apply Hn1. left. congruence.
-  - apply Hn1. right; left. congruence.
-  - apply Hn2. left. congruence.
-Qed.
-
-(* a burst inside [0, tmax], the first tick at least 5 s after it and less than 60 s after its start *)
-Lemma scan_le2 kts tmax now later :
-  Forall (fun kt => k_kind (fst kt) <> KTcp) kts ->
+(* a burst inside [0, tmax], the first tick at least 5 s after it and less than 60 s after its
+   start: every group reported once with exactly its ports, nothing afterwards *)
+Lemma scan_full kts tmax now later :
   Forall (fun kt => 0 <= snd kt <= tmax) kts ->
   tmax + 5000 <= now < 60000 ->
-  at_most_two_keys (map fst kts) ->
   exists gs n,
     groups_exact (map fst kts) gs /\
     run (map (fun kt => DKnock (fst kt) (snd kt)) kts ++ [DTick now; DTick later]) det0
-      = Some ([map report_of gs; []], mkDet [] n).
+      = ([map report_of gs; []], mkDet [] n).
 Proof.
-  intros Hk Ht Hnow H2.
-  pose proof (run_knocks_inv kts Hk) as Hinv.
+  intros Ht Hnow.
+  pose proof (run_knocks_inv kts) as Hinv.
   pose proof (dinv_exact _ _ Hinv) as Hex.
   exists (d_groups (run_knocks kts det0)), (d_next (run_knocks kts det0)).
   split; auto.
-  rewrite run_knocks_events. unfold run. cbn [run_with].
+  rewrite run_knocks_events. cbn [run].
   destruct Hinv as (Hid & _ & _ & Hseen & _).
-  rewrite tick_le2; auto.
-  - eapply exact_le2; eauto.
-  - intros g Hg. rewrite Forall_forall in Hseen. destruct (Hseen g Hg) as (Hl & _).
-    apply in_map_iff in Hl as ((k', t') & Ht' & Hin). cbn [snd] in Ht'.
-    rewrite Forall_forall in Ht. specialize (Ht _ Hin). cbn [snd] in Ht.
-    unfold due, removable. rewrite <- Ht'. split.
-    + apply orb_true_iff. right. apply negb_true_iff. apply Z.ltb_ge. lia.
-    + apply Z.ltb_lt. lia.
-Qed.
-
-(* ---- TCP: no path of handleTCP reaches the knock send ---- *)
-Lemma tcp_never i : tcp_queues_knock i = false.
-Proof.
-  destruct i as [a b c d e f s g]. unfold tcp_queues_knock. cbn.
-  destruct a, b, c, d, e, f, g; cbn; try reflexivity; destruct s as [[]|]; reflexivity.
-Qed.
-
-Lemma knocks_of_tcp st ackok ps :
-  Forall (fun p => p_proto p = 0%N) ps -> flat_map (knocks_of_probe st ackok) ps = [].
-Proof.
-  induction 1 as [|p r Hp _ IH]; cbn [flat_map]; auto.
-  rewrite IH, app_nil_r. unfold knocks_of_probe. rewrite Hp, tcp_never. reflexivity.
-Qed.
-
-Lemma ticks_idle nows : forall n,
-  run (map DTick nows) (mkDet [] n) = Some (map (fun _ => []) nows, mkDet [] n).
-Proof.
-  unfold run. induction nows as [|t r IH]; intros n; cbn [map run_with]; auto.
-  rewrite tick_empty, IH. reflexivity.
-Qed.
-
-(* ---- defect class of Each-with-removal: every set of >= 3 members ---- *)
-Lemma each_rm_ge3_wrong {A} (idf : A -> N) (s : list A) :
-  (3 <= length s)%nat -> NoDup (map idf s) ->
-  fst (each_rm idf (fun _ => true) s) <> map Some s.
-Proof.
-  intros Hl Hn. destruct s as [|a [|b [|c r]]]; cbn [length] in Hl; try lia.
-  destruct (each_rm_ge3_skips A idf a b c r) as (vis & ->). cbn [map].
-  intros E. injection E as E _. subst c.
-  cbn [map] in Hn. inversion Hn as [|? ? _ Hn']; subst. inversion Hn' as [|? ? Hb _]; subst.
-  apply Hb. left; auto.
-Qed.
-
-(* ---- witnesses ---- *)
-Definition wit_udp (src port : N) : knock := mkKnock KUdp (src_mac src) dst_mac (src_ip src) dst_ip port.
-Definition wit_kts : list (knock * Z) := [(wit_udp 0 1000, 0); (wit_udp 1 1000, 0); (wit_udp 2 1000, 0)].
-Definition wit_rep (src : N) : report := mkReport (src_mac src) dst_mac (src_ip src) dst_ip [(KUdp, 1000%N)].
-
-Lemma wit_run :
-  run (map (fun kt => DKnock (fst kt) (snd kt)) wit_kts ++ [DTick 5000; DTick 10000; DTick 15000]) det0
-  = Some ([[wit_rep 0; wit_rep 2; wit_rep 2]; [wit_rep 1]; []], mkDet [] 3%N).
-Proof. vm_compute. reflexivity. Qed.
-
-Lemma each_rm_refuted :
-  exists s : list N, NoDup s /\
-    each_rm (fun x => x) (fun _ => true) s = ([Some 1; Some 3; Some 3]%N, [2%N]) /\ s = [1; 2; 3]%N.
-Proof.
-  exists [1; 2; 3]%N. split; [|split; [vm_compute; reflexivity|reflexivity]].
-  repeat constructor; cbn; intros H; repeat destruct H as [H|H]; try discriminate; auto.
-Qed.
-
-Lemma run_knocks_exact kts :
-  Forall (fun kt => k_kind (fst kt) <> KTcp) kts ->
-  groups_exact (map fst kts) (d_groups (run_knocks kts det0)).
-Proof. intros H. apply dinv_exact, run_knocks_inv, H. Qed.
-
-Lemma scan_full_refuted :
-  ~ (forall kts tmax now later,
-     Forall (fun kt => k_kind (fst kt) <> KTcp) kts ->
-     Forall (fun kt => 0 <= snd kt <= tmax) kts ->
-     tmax + 5000 <= now < 60000 ->
-     exists gs n,
-       groups_exact (map fst kts) gs /\
-       run (map (fun kt => DKnock (fst kt) (snd kt)) kts ++ [DTick now; DTick later]) det0
-         = Some ([map report_of gs; []], mkDet [] n)).
-Proof.
-  intros H.
-  destruct (H wit_kts 0 5000 10000) as (gs & n & _ & Hrun).
-  - repeat constructor; cbn; discriminate.
-  - repeat constructor; cbn; lia.
-  - lia.
-  - vm_compute in Hrun. discriminate Hrun.
-Qed.
-
-Lemma tcp_probes_silent st ackok ps nows :
-  Forall (fun p => p_proto p = 0%N) ps ->
-  run (map (fun k => DKnock k 0) (flat_map (knocks_of_probe st ackok) ps) ++ map DTick nows) det0
-  = Some (map (fun _ => []) nows, det0).
-Proof.
-  intros H. rewrite knocks_of_tcp by exact H. cbn [map app]. apply ticks_idle.
-Qed.
-
-(* ================================================================ the repaired tick *)
-Section Copy.
-  Variable A : Type.
-  Variable idf : A -> N.
-
-  Lemma fold_uremove_cons_other a xs : forall l,
-    (forall x, In x xs -> idf x <> idf a) ->
-    fold_left (fun l x => uremove idf x l) xs (a :: l) = a :: fold_left (fun l x => uremove idf x l) xs l.
-  Proof.
-    induction xs as [|x r IH]; intros l H; cbn [fold_left]; auto.
-    cbn [uremove]. unfold same at 1.
-    assert ((idf x =? idf a)%N = false) as -> by (apply N.eqb_neq, H; left; auto).
-    apply IH. intros y Hy; apply H; right; auto.
-  Qed.
-
-  Lemma fold_uremove_filter rm s :
-    NoDup (map idf s) ->
-    fold_left (fun l x => uremove idf x l) (filter rm s) s = filter (fun x => negb (rm x)) s.
-  Proof.
-    induction s as [|a r IH]; cbn [map filter fold_left]; auto.
-    intros Hn. inversion Hn as [|? ? Ha Hr]; subst.
-    destruct (rm a) eqn:Ra; cbn [negb fold_left].
-    - cbn [uremove]. unfold same. rewrite N.eqb_refl. apply IH; auto.
-    - rewrite fold_uremove_cons_other.
-      + rewrite IH; auto.
-      + intros x Hx E. apply filter_In in Hx as (Hx & _). apply Ha. rewrite <- E. apply in_map; auto.
-  Qed.
-
-  Lemma each_rm_copy_exact rm s :
-    NoDup (map idf s) -> each_rm_copy idf rm s = (map Some s, filter (fun x => negb (rm x)) s).
-  Proof. intros H. unfold each_rm_copy. rewrite fold_uremove_filter; auto. Qed.
-End Copy.
-
-Lemma tick_repaired_all now d :
-  NoDup (map g_id (d_groups d)) ->
-  (forall g, In g (d_groups d) -> due now g = true /\ removable now g = true) ->
-  tick_repaired now d = TickOk (map report_of (d_groups d)) (mkDet [] (d_next d)).
-Proof.
-  intros Hn Hd. unfold tick_repaired. rewrite each_rm_copy_exact by auto.
-  rewrite existsb_none_map_Some, somes_map_Some.
-  rewrite filter_all by (intros g Hg; apply Hd; auto).
-  rewrite filter_none; auto.
-  intros g Hg. destruct (Hd g Hg) as (H1 & H2). unfold tick_rm. rewrite H1, H2. reflexivity.
-Qed.
-
-(* with Each iterating over a copy the statement holds for any number of groups *)
-Lemma scan_repaired kts tmax now later :
-  Forall (fun kt => k_kind (fst kt) <> KTcp) kts ->
-  Forall (fun kt => 0 <= snd kt <= tmax) kts ->
-  tmax + 5000 <= now < 60000 ->
-  exists gs n,
-    groups_exact (map fst kts) gs /\
-    run_with tick_repaired (map (fun kt => DKnock (fst kt) (snd kt)) kts ++ [DTick now; DTick later]) det0
-      = Some ([map report_of gs; []], mkDet [] n).
-Proof.
-  intros Hk Ht Hnow.
-  pose proof (run_knocks_inv kts Hk) as Hinv.
-  pose proof (dinv_exact _ _ Hinv) as Hex.
-  exists (d_groups (run_knocks kts det0)), (d_next (run_knocks kts det0)).
-  split; auto.
-  rewrite run_with_knocks_events. cbn [run_with].
-  destruct Hinv as (Hid & _ & _ & Hseen & _).
-  rewrite tick_repaired_all; auto.
+  rewrite tick_all; auto.
   intros g Hg. rewrite Forall_forall in Hseen. destruct (Hseen g Hg) as (Hl & _).
   apply in_map_iff in Hl as ((k', t') & Ht' & Hin). cbn [snd] in Ht'.
   rewrite Forall_forall in Ht. specialize (Ht _ Hin). cbn [snd] in Ht.
@@ -813,126 +518,53 @@ Proof.
   - apply Z.ltb_lt. lia.
 Qed.
 
-(* ================================================================ the tick never reads a nil slot *)
-Section NoNil.
-  Variable A : Type.
-  Variable idf : A -> N.
-
-  Lemma my_nth_firstn {B} (l : list B) d : forall n i, (i < n)%nat -> nth i (firstn n l) d = nth i l d.
-  Proof.
-    induction l as [|b r IH]; intros n i H.
-    - rewrite firstn_nil. reflexivity.
-    - destruct n; [lia|]. destruct i; cbn [firstn nth]; auto. apply IH; lia.
-  Qed.
-
-  Lemma my_nth_skipn {B} (l : list B) d : forall n i, nth i (skipn n l) d = nth (n + i) l d.
-  Proof.
-    induction l as [|b r IH]; intros n i.
-    - rewrite skipn_nil. destruct i, n; reflexivity.
-    - destruct n; cbn [skipn Nat.add nth]; auto.
-  Qed.
-
-  Lemma index_of_le x l : forall j i,
-    index_of idf x l = Some j -> nth i l None = Some x -> (j <= i)%nat.
-  Proof.
-    induction l as [|o r IH]; intros j i Hj Hi; cbn [index_of] in Hj; [discriminate|].
-    destruct i.
-    - cbn [nth] in Hi. subst o. cbn [slot_is] in Hj. unfold same in Hj. rewrite N.eqb_refl in Hj.
-      injection Hj as <-. lia.
-    - cbn [nth] in Hi. destruct (slot_is idf x o); [injection Hj as <-; lia|].
-      destruct (index_of idf x r) as [j'|] eqn:E; [|discriminate]. injection Hj as <-.
-      specialize (IH j' i eq_refl Hi). lia.
-  Qed.
-
-  Lemma w_remove_keeps_some x w i n :
-    w_ok A w -> length (w_arr w) = n ->
-    (forall j, index_of idf x (live w) = Some j -> (j <= i)%nat) ->
-    (forall q, (i <= q < n)%nat -> nth q (w_arr w) None <> None) ->
-    forall q, (i < q < n)%nat -> nth q (w_arr (w_remove idf x w)) None <> None.
-  Proof.
-    intros Hok Hlen Hj Hinv q Hq. pose proof (live_length A w Hok) as HL.
-    unfold w_remove. destruct (index_of idf x (live w)) as [j|] eqn:Ej; [|apply Hinv; lia].
-    specialize (Hj j eq_refl).
-    pose proof (index_of_lt A idf _ _ _ Ej) as HjL. rewrite HL in HjL.
-    unfold w_ok in Hok. cbn [w_arr]. set (L := w_len w) in *. set (a := w_arr w) in *.
-    assert (Hlen1 : length (firstn j a) = j) by (rewrite firstn_length; lia).
-    assert (Hlen2 : length (firstn (L - 1 - j) (skipn (S j) a)) = (L - 1 - j)%nat)
-      by (rewrite firstn_length, skipn_length; lia).
-    rewrite app_nth2 by lia. rewrite Hlen1.
-    destruct (Nat.lt_ge_cases (q - j) (L - 1 - j)) as [H1|H1].
-    - rewrite app_nth1 by lia. rewrite my_nth_firstn by lia. rewrite my_nth_skipn.
-      apply Hinv. lia.
-    - rewrite app_nth2 by lia. rewrite Hlen2.
-      destruct (Nat.eq_dec (q - j - (L - 1 - j)) 0) as [H0|H0].
-      + rewrite H0. cbn [app nth].
-        assert ((j =? L - 1)%nat = false) as -> by (apply Nat.eqb_neq; lia).
-        apply Hinv. lia.
-      + destruct (q - j - (L - 1 - j))%nat as [|m] eqn:Em; [lia|]. cbn [app nth].
-        rewrite my_nth_skipn. replace (L + m)%nat with q by lia. apply Hinv. lia.
-  Qed.
-
-  Lemma each_loop_no_nil rm n : forall k i w vis w',
-    (i + k = n)%nat -> w_ok A w -> length (w_arr w) = n ->
-    (forall q, (i <= q < n)%nat -> nth q (w_arr w) None <> None) ->
-    each_loop idf rm (seq i k) w = (vis, w') -> Forall (fun o => o <> None) vis.
-  Proof.
-    induction k as [|k IH]; intros i w vis w' Hik Hok Hlen Hinv H; cbn [seq each_loop] in H.
-    - injection H as <- <-. constructor.
-    - set (o := nth i (w_arr w) None) in *.
-      assert (Ho : o <> None) by (apply Hinv; lia).
-      destruct o as [x|] eqn:Eo; [|congruence].
-      set (w1 := if rm x then w_remove idf x w else w) in *.
-      destruct (each_loop idf rm (seq (S i) k) w1) as [vis1 w2] eqn:E. injection H as <- <-.
-      constructor; [discriminate|].
-      apply (IH (S i) w1 vis1 w2); auto; try lia.
-      + subst w1. destruct (rm x); auto. apply (w_remove_live A idf x w Hok).
-      + subst w1. destruct (rm x); auto.
-        destruct (w_remove_live A idf x w Hok) as (_ & _ & Hl). lia.
-      + intros q Hq. subst w1. destruct (rm x); [|apply Hinv; lia].
-        apply (w_remove_keeps_some x w i n); auto; try lia.
-        intros j Hj.
-        destruct (Nat.lt_ge_cases i (w_len w)) as [Hi|Hi].
-        * apply (index_of_le x (live w)); auto. unfold live. rewrite my_nth_firstn by lia. exact Eo.
-        * pose proof (index_of_lt A idf _ _ _ Hj) as HjL. rewrite (live_length A w Hok) in HjL. lia.
-  Qed.
-
-  Lemma each_rm_no_nil rm s : Forall (fun o => o <> None) (fst (each_rm idf rm s)).
-  Proof.
-    unfold each_rm.
-    destruct (each_loop idf rm (seq 0 (length s)) (mkW (map Some s) (length s))) as [vis w] eqn:E.
-    cbn [fst]. apply (each_loop_no_nil rm (length s) (length s) 0%nat _ _ _ eq_refl) in E; auto.
-    - unfold w_ok; cbn [w_len w_arr]. rewrite map_length; lia.
-    - cbn [w_arr]. apply map_length.
-    - intros q Hq. cbn [w_arr]. intros Hn.
-      assert (Hq' : (q < length (map Some s))%nat) by (rewrite map_length; lia).
-      apply (nth_In _ (@None A)) in Hq'. rewrite Hn in Hq'. apply in_map_iff in Hq' as (z & Hz & _). discriminate.
-  Qed.
-End NoNil.
-
-Lemma tick_no_panic now d : tick now d <> TickPanic.
+Lemma ticks_idle nows : forall n,
+  run (map DTick nows) (mkDet [] n) = (map (fun _ => []) nows, mkDet [] n).
 Proof.
-  unfold tick. pose proof (each_rm_no_nil group g_id (tick_rm now) (d_groups d)) as H.
-  destruct (each_rm g_id (tick_rm now) (d_groups d)) as [vis gs]. cbn [fst] in H.
-  assert (existsb is_none vis = false) as ->; [|discriminate].
-  apply not_true_is_false. intros E. apply existsb_exists in E as (o & Ho & Hn).
-  rewrite Forall_forall in H. specialize (H o Ho). destruct o; [discriminate|congruence].
+  induction nows as [|t r IH]; intros n; cbn [map run]; auto.
+  rewrite tick_empty, IH. reflexivity.
 Qed.
 
-Lemma run_no_panic evs : forall d, run evs d <> None.
+(* ---- TCP: exactly the connection attempts queue a knock ---- *)
+Lemma tcp_knock_iff i :
+  tcp_queues_knock i =
+  t_parse_ok i && t_is_me i && negb (t_port22 i) && t_syn i &&
+  (if t_ack i then match t_state i with Some SListen => true | _ => false end else t_table_ok i).
 Proof.
-  unfold run. induction evs as [|[k t|now] r IH]; intros d; cbn [run_with]; [discriminate|apply IH|].
-  pose proof (tick_no_panic now d) as Hp. destruct (tick now d) as [reps d'|]; [|congruence].
-  specialize (IH d'). destruct (run_with tick r d') as [[rs d'']|]; [discriminate|congruence].
+  destruct i as [a b c d e f s g h]. unfold tcp_queues_knock. cbn.
+  destruct a, b, c, d, e, g; cbn; try reflexivity; destruct s as [[]|]; reflexivity.
 Qed.
 
-(* ---- latent: were TCP knocks queued, they would join the source's UDP group (its Protocol
-        is the zero value = ProtocolTCP) whose equality function rejects TCP knocks ---- *)
+(* a SYN without ACK to a port other than 22 is a knock whatever state the 4-tuple has
+   (a repeated SYN creates a new state and knocks again) *)
+Lemma syn_probe_knocks st ackok p :
+  p_proto p = 0%N -> flag (p_flags p) 1 = true -> flag (p_flags p) 4 = false -> p_port p <> 22%N ->
+  knocks_of_probe st ackok p = [mkKnock KTcp (src_mac (p_src p)) dst_mac (src_ip (p_src p)) dst_ip (p_port p)].
+Proof.
+  intros Hp Hs Ha H22. unfold knocks_of_probe. rewrite Hp, tcp_knock_iff. cbn.
+  rewrite Hs, Ha. apply N.eqb_neq in H22. rewrite H22. reflexivity.
+Qed.
+
+(* ---- witnesses (the inputs on which the code failed before the repairs) ---- *)
+Definition wit_udp (src port : N) : knock := mkKnock KUdp (src_mac src) dst_mac (src_ip src) dst_ip port.
+Definition wit_tcp (src port : N) : knock := mkKnock KTcp (src_mac src) dst_mac (src_ip src) dst_ip port.
+Definition wit_kts : list (knock * Z) := [(wit_udp 0 1000, 0); (wit_udp 1 1000, 0); (wit_udp 2 1000, 0)].
+Definition wit_rep (src : N) : report := mkReport (src_mac src) dst_mac (src_ip src) dst_ip [(KUdp, 1000%N)].
+
+Lemma wit_run :
+  run (map (fun kt => DKnock (fst kt) (snd kt)) wit_kts ++ [DTick 5000; DTick 10000; DTick 15000]) det0
+  = ([[wit_rep 0; wit_rep 1; wit_rep 2]; []; []], mkDet [] 3%N).
+Proof. vm_compute. reflexivity. Qed.
+
 Definition wit_mixed : list (knock * Z) :=
-  [(wit_udp 0 80, 0);
-   (mkKnock KTcp (src_mac 0) dst_mac (src_ip 0) dst_ip 80, 0);
-   (mkKnock KTcp (src_mac 0) dst_mac (src_ip 0) dst_ip 80, 0)].
+  [(wit_udp 0 80, 0); (wit_tcp 0 80, 1); (wit_tcp 0 80, 2); (wit_tcp 0 443, 3); (wit_udp 0 80, 4)].
 
-Lemma mixed_group_lists_twice :
-  map report_of (d_groups (run_knocks wit_mixed det0)) =
-  [mkReport (src_mac 0) dst_mac (src_ip 0) dst_ip [(KUdp, 80%N); (KTcp, 80%N); (KTcp, 80%N)]].
+Lemma wit_mixed_run :
+  run (map (fun kt => DKnock (fst kt) (snd kt)) wit_mixed ++ [DTick 5004; DTick 10004]) det0
+  = ([[mkReport (src_mac 0) dst_mac (src_ip 0) dst_ip [(KUdp, 80%N)];
+       mkReport (src_mac 0) dst_mac (src_ip 0) dst_ip [(KTcp, 80%N); (KTcp, 443%N)]]; []], mkDet [] 5%N).
+Proof. vm_compute. reflexivity. Qed.
+
+Lemma each_rm_three :
+  each_rm (fun x : N => x) (fun _ => true) [1; 2; 3]%N = ([1; 2; 3]%N, []).
 Proof. vm_compute. reflexivity. Qed.
